@@ -13,6 +13,7 @@ Three groups:
 from values import (VAL, INT, STR, ZST, FN, AGG, SITE, SYM, PTR, MUT, mk, is_int, int_of, is_sym, is_agg,
                     is_ptr, agg_variant, agg_fields, agg_kind)
 from engine import NeedFork, Infeasible
+from values import subs as values_subs
 
 OPTION = 'std::option::Option'
 RESULT = 'std::result::Result'
@@ -194,7 +195,8 @@ class Models:
                 pointee = None
         lazy_recv = self._is_lazy(rv) or self._is_lazy(pointee)
         has_cb = any(self._local_callable(I, st, a) for a in args[1:])
-        if name in self.LAZY_MAKERS and has_cb and len(args) == 2:
+        fn_arg = len(args) == 2 and I.own(st, args[1]) is not None and VAL[I.own(st, args[1])][0] == 'fn'
+        if name in self.LAZY_MAKERS and len(args) == 2 and (has_cb or (lazy_recv and fn_arg)):
             return self.finish(I, st, fr, t, cont, AGG('lazy:' + name, 0, [rv if rv is not None else recv, I.own(st, args[1])]))
         if name in self.LAZY_PASS and lazy_recv:
             return self.finish(I, st, fr, t, cont, rv if self._is_lazy(rv) else recv)
@@ -209,6 +211,8 @@ class Models:
                 return I.call_local(st, fr, t, key, [a0, a1], {}, cont)
             return None
         if not (has_cb or lazy_recv):
+            return None
+        if name in ('next', 'into_iter', 'by_ref') or name in self.LAZY_MAKERS or name in self.LAZY_PASS:
             return None
         dts = I.T[t['dest_ty']]['s'] if t.get('dest_ty') is not None else ''
         shim = None
@@ -335,6 +339,15 @@ class Models:
 
     def result_value(self, I, np, site, rargs, dt):
         rs = [r for r in rargs if r is not None]
+        # widening: the same call site applied to (something derived from) its own earlier result -- `rest =
+        # rest.split_first().1` in a loop -- is one abstract value, not an ever deeper term: reuse the inner application's
+        # operands so that the loop reaches a fixed point
+        for r in rs:
+            inner = [x for x in values_subs(r) if VAL[x][0] == 'sym' and VAL[x][1] == 'app' and VAL[x][3] == site and
+                     (VAL[x][2] == np or VAL[x][2].rsplit('.', 1)[0] == np)]
+            if inner:
+                rs = [a for a in VAL[inner[0]][4:] if a is not None]
+                break
         if dt is None:
             return SYM('app', np, site, *rs)
         if dt['k'] == 'tuple':
